@@ -1,9 +1,14 @@
 (** C01 — model side of the correspondence.  [COut]: the device buffer for a given mixer bus must be
     [render n b bus] (the bus is either the source frames of a unit-gain static sound on a bare main
     track, or what a probe effect at the end of the main track recorded in a random scene).
-    [CCb]: the step list of a callback: no heap traffic, one on_start_processing, chunk lengths. *)
+    [CCb]: the step list of a callback: no heap traffic, one on_start_processing, chunk lengths.
+    [CRes]: a history of creations, handle drops / finishes and callbacks on ONE resource storage, run on
+    C08's model of the hand-off (the model behind [audio_side_never_frees] / [queues_never_overflow]):
+    every callback returns (no push of the audio thread fails, however often the slots are re-used), the
+    reported count, and which payloads are destroyed during which operation and on which thread. *)
 From Coq Require Import ZArith List Bool.
 From KV Require Import Base.IEEE Base.Corr C01.Model.
+From KV Require C08.Model C08.Run.
 Import ListNotations.
 Local Open Scope Z_scope.
 
@@ -11,7 +16,15 @@ Inductive case :=
 | COut (channels b : Z) (frames : list (Z * Z))
   (** one callback of [frames] frames with internal buffer [b]: heap allocations, frees, calls of
       on_start_processing, then the chunk lengths the mixer was asked for *)
-| CCb (b frames : Z).
+| CCb (b frames : Z)
+  (** storage kind ([selfref]: clocks, modulators; [prebuild]: the payload exists before the slot is
+      reserved: sounds, sub-tracks), capacity, observable mask of C08.Run ([M_LEN] = 2, [M_DROPS] = 4),
+      operations: 0 = create, 1 = callback, 100 + p = the p-th payload is marked for removal (its handle
+      is dropped / it reports [finished]) *)
+| CRes (selfref prebuild : bool) (cap mask : Z) (ops : list Z).
+
+Definition res_op_of_Z (z : Z) : C08.Run.op :=
+  if z =? 0 then C08.Run.OCreate else if z =? 1 then C08.Run.OCallback else C08.Run.OMark (z - 100).
 
 Definition run (c : case) : list Z :=
   match c with
@@ -21,4 +34,6 @@ Definition run (c : case) : list Z :=
       let steps := callback_steps (Z.to_nat b) (Z.to_nat frames) in
       Z.of_nat (heap_allocs steps) :: Z.of_nat (heap_frees steps) :: Z.of_nat (starts_of steps)
       :: map Z.of_nat (mixer_lengths steps)
+  | CRes sr pb cp mask ops =>
+      C08.Run.run (C08.Run.CHist sr pb cp mask (map res_op_of_Z ops))
   end.
